@@ -20,10 +20,11 @@ type options struct {
 	evidenceDir string
 	known       string
 	tier        string
+	controlDir  string
 }
 
 func parseOpts(args []string) (options, []string) {
-	o := options{repo: "/repo", evidenceDir: "/verif/evidence", known: "/verif/known_findings.json", tier: "quick"}
+	o := options{repo: "/repo", evidenceDir: "/verif/evidence", known: "/verif/known_findings.json", tier: "quick", controlDir: "/verif/checker/testdata/positive"}
 	if v := os.Getenv("GODS_REPO"); v != "" {
 		o.repo = v
 	}
@@ -49,6 +50,8 @@ func parseOpts(args []string) (options, []string) {
 			o.evidenceDir = next()
 		case "--known":
 			o.known = next()
+		case "--control-dir":
+			o.controlDir = next()
 		default:
 			rest = append(rest, args[i])
 		}
